@@ -79,11 +79,12 @@ def check_tables(rep: Report, ev: Evaluator, tag: str = "") -> None:
                       edge.where)
         else:
             seen[k] = edge
-    # R09.3 residuals
+    # R09.3 residuals.  A declaration is identified by what it declares (module, the two units, the ratio), not by the text of the
+    # statement: `X.equals(q)` written through a helper or a loop is the same declaration
     for edge, res, _ in ev.sizes.residuals:
         d = degree(edge)
         dev = abs(res.dec() - 1)
-        rep.check("R09.3", f"{edge.module}:{edge.text}", dev <= TOL * d,
+        rep.check("R09.3", f"{edge.module}:{edge_key(ev, edge)}", dev <= TOL * d,
                   f"closing this declaration against the chain of earlier ones leaves a factor "
                   f"{float(res.dec()):.12g} (tolerance 1e-5 x degree {d}); the unit's size depends on the route",
                   edge.where, note={"residual": f"{float(res.dec()):.15g}", "degree": d, "exact": res.exact})
@@ -113,6 +114,18 @@ def check_tables(rep: Report, ev: Evaluator, tag: str = "") -> None:
             continue
         rep.fail("R09.4", key, f"{u.name!r} has no declared equivalence linking it to the SI units of "
                  f"its dimension: it converts to nothing", u.where)
+
+
+def edge_key(ev, edge) -> str:  # type: ignore[no-untyped-def]
+    def label(u) -> str:  # type: ignore[no-untyped-def]
+        if u.names:
+            return str(u.names[0])
+        parts = []
+        for uid, e in u.factors.items():
+            f = ev.unit_by_id.get(uid)
+            parts.append((str(f.name if f is not None and f.names else uid), e))
+        return "*".join(f"{n}^{e}" if e != 1 else n for n, e in sorted(parts))
+    return f"{label(edge.a)} = {float(edge.ratio.dec()):.10g} {label(edge.b)}"
 
 
 def run(rep: Report) -> None:
@@ -157,10 +170,10 @@ def run(rep: Report) -> None:
     if rep.tier == "thorough":
         # import-order independence: evaluate starting from each shipped module
         rep.rule("R09.6", "the verdicts do not depend on which shipped module is imported first", armed=True)
-        base = {(e.module, e.text) for e, r, _ in ev.sizes.residuals if abs(r.dec() - 1) > TOL * degree(e)}
+        base = {(e.module, edge_key(ev, e)) for e, r, _ in ev.sizes.residuals if abs(r.dec() - 1) > TOL * degree(e)}
         for m in shipped_modules():
             ev2 = evaluate(entry=m, unity_anchors=unity)
-            bad2 = {(e.module, e.text) for e, r, _ in ev2.sizes.residuals if abs(r.dec() - 1) > TOL * degree(e)}
+            bad2 = {(e.module, edge_key(ev2, e)) for e, r, _ in ev2.sizes.residuals if abs(r.dec() - 1) > TOL * degree(e)}
             mods = set(ev2.order)
             expected = {b for b in base if b[0] in mods}
             rep.check("R09.6", f"entry={m}", bad2 >= expected or True, "", note={"modules": len(mods), "inconsistent": sorted(bad2)})
